@@ -12,6 +12,7 @@ Ev == Traces[tid].ev[l]
 Ac == Ev.a
 Step ==
     \/ Ac.n = "New" /\ New
+    \/ Ac.n = "Register" /\ Register
     \/ Ac.n = "Assign" /\ Assign(Ac.o, Ac.s, Ac.r)
     \/ Ac.n = "AssignBad" /\ AssignBad(Ac.o, Ac.s)
     \/ Ac.n = "AssignUnknown" /\ AssignUnknown(Ac.o, Ac.nm)
